@@ -203,6 +203,135 @@ type Fact struct {
 	Cond ssa.Value
 	Val  bool
 	If   *ssa.If
+	// Via and Subst are set on a fact imported from a guard helper (ImportGuards): Cond is a value of the callee, it
+	// held where the callee returned a nil error, and Subst maps the callee's parameters to the arguments of Via.
+	Via   *ssa.Call
+	Subst map[ssa.Value]ssa.Value
+}
+
+// activeSubst is the substitution of the imported fact being canonicalised (set by Fact.Canon; analyses run on one
+// goroutine).
+var activeSubst map[ssa.Value]ssa.Value
+
+// SubstValue maps a parameter of a guard helper to the argument it was called with, while a fact imported from that
+// helper is being canonicalised; any other value is returned unchanged.
+func SubstValue(v ssa.Value) ssa.Value {
+	for i := 0; i < 4 && activeSubst != nil; i++ {
+		a, ok := activeSubst[v]
+		if !ok {
+			break
+		}
+		v = a
+	}
+	return v
+}
+
+// Canon wraps canon so that, for an imported fact, the callee's parameters are read as the call's arguments.
+func (f Fact) Canon(canon Canon) Canon {
+	if f.Subst == nil {
+		return canon
+	}
+	return func(v ssa.Value) (Term, bool) {
+		prev := activeSubst
+		activeSubst = f.Subst
+		defer func() { activeSubst = prev }()
+		return canon(v)
+	}
+}
+
+// ImportGuards adds, for every fact "e == nil" where e is the error result of a static call to a function with a
+// body that inModule accepts, the facts that hold at every return of that function whose error result may be nil
+// (their intersection): a bounds check moved into a helper `if err := b.checkRange(lo, hi); err != nil { return }`
+// guards the code after it exactly as the inlined comparisons did. One level of helpers is followed.
+func ImportGuards(facts []Fact, inModule func(*ssa.Function) bool) []Fact {
+	out := facts
+	for _, f := range facts {
+		if f.Subst != nil {
+			continue
+		}
+		x, eq, ok := NilTest(f.Cond)
+		if !ok || eq != f.Val || !IsErrorType(x.Type()) {
+			continue
+		}
+		var call *ssa.Call
+		eidx := 0
+		switch y := x.(type) {
+		case *ssa.Call:
+			call = y
+		case *ssa.Extract:
+			call, _ = y.Tuple.(*ssa.Call)
+			eidx = y.Index
+		}
+		if call == nil {
+			continue
+		}
+		callee := StaticCallee(call)
+		if callee == nil || callee.Blocks == nil || !inModule(callee) || len(callee.Params) != len(call.Call.Args) {
+			continue
+		}
+		if ErrorResultIndex(callee.Signature) != eidx {
+			continue
+		}
+		var common []Fact
+		first := true
+		sound := true
+		for _, r := range Returns(callee) {
+			e := r.Results[eidx]
+			if definitelyNonNilError(e) {
+				continue
+			}
+			if !IsNilConst(e) {
+				// a variable: may be nil, and its block's facts are all we know
+			}
+			fs := FactsAt(r.Block())
+			if first {
+				common, first = fs, false
+				continue
+			}
+			var keep []Fact
+			for _, a := range common {
+				for _, b := range fs {
+					if a.Cond == b.Cond && a.Val == b.Val {
+						keep = append(keep, a)
+						break
+					}
+				}
+			}
+			common = keep
+		}
+		if first || !sound {
+			continue
+		}
+		subst := map[ssa.Value]ssa.Value{}
+		for i, prm := range callee.Params {
+			subst[prm] = call.Call.Args[i]
+		}
+		for _, g := range common {
+			out = append(out, Fact{Cond: g.Cond, Val: g.Val, If: g.If, Via: call, Subst: subst})
+		}
+	}
+	return out
+}
+
+// definitelyNonNilError: e is built in place (a call of a constructor such as fmt.Errorf / errors.New, an allocated
+// error struct, or an interface made from one).
+func definitelyNonNilError(e ssa.Value) bool {
+	switch x := e.(type) {
+	case *ssa.MakeInterface:
+		switch x.X.(type) {
+		case *ssa.Alloc, *ssa.Call:
+			return true
+		}
+		return false
+	case *ssa.Call:
+		if callee := StaticCallee(x); callee != nil && callee.Pkg != nil {
+			switch callee.Pkg.Pkg.Path() + "." + callee.Name() {
+			case "fmt.Errorf", "errors.New":
+				return true
+			}
+		}
+	}
+	return false
 }
 
 // FactsAt returns the branch facts that hold on entry to block b: for every block D on the
